@@ -105,7 +105,8 @@ func (op Cirn) Disassembler(arch *Arch, instr string) (string, error) {
 func (op Cirn) Simulate(vm *VM, instr string) error {
 	reg_bits := vm.Mach.R
 	regdest := get_id(instr[:reg_bits])
-	regsrc := get_id(instr[reg_bits : reg_bits*2])
+	// The instruction has a single operand: the register is shifted in place, as the hardware does
+	regsrc := regdest
 	switch vm.Mach.Rsize {
 	case 8:
 		vm.Registers[regdest] = vm.Registers[regsrc].(uint8) >> 1
